@@ -335,7 +335,7 @@ class DeployEngine(object):
         ner = rig_module("rig.place_and_route.route.ner")
         self.build_truth()
         m = self.m
-        g = prgen.Graph()
+        g = prgen.Graph(t)
         # tie-breaks of the router and of geometry come from the tape
         c.seams.set("rig.place_and_route.route.utils", "random",
                     prgen.seeded(t))
